@@ -56,10 +56,10 @@ StdTypes == {<<TItem, TMyErr, TColor>>}
 
 Prm(n, t, k, al, v) == [name |-> n, type |-> t, kind |-> k, alias |-> al, validate |-> v]
 ParamsC06 ==
-    { Prm(n, t, "Path", al, "") : n \in {"a"}, t \in {"string", "int", "p1.Color"}, al \in {"", "x_a", "x-a"} }
-    \cup { Prm(n, t, "Query", al, v) : n \in {"b"}, t \in {"string", "*string", "int", "*int", "bool", "float64", "[]string", "[]int", "p1.Color", "*p1.Color"},
+    { Prm(n, t, "Path", al, "") : n \in {"a"}, t \in {"string", "int", "p1.Color", "float32", "int8"}, al \in {"", "x_a", "x-a"} }
+    \cup { Prm(n, t, "Query", al, v) : n \in {"b"}, t \in {"string", "*string", "int", "*int", "bool", "float64", "float32", "*float32", "int8", "uint8", "uint", "int64", "[]string", "[]int", "p1.Color", "*p1.Color"},
                                          al \in {"", "x-b"}, v \in {"", "required", "omitempty"} }
-    \cup { Prm(n, t, "Header", al, v) : n \in {"c"}, t \in {"string", "*string", "int", "*bool"}, al \in {"", "X-C"}, v \in {"", "required"} }
+    \cup { Prm(n, t, "Header", al, v) : n \in {"c"}, t \in {"string", "*string", "int", "*bool", "float32", "uint8"}, al \in {"", "X-C"}, v \in {"", "required"} }
     \cup { Prm(n, t, "FormField", "", v) : n \in {"d"}, t \in {"string", "*int"}, v \in {"", "required"} }
     \cup { Prm(n, t, "Body", "", v) : n \in {"e"}, t \in {"p1.Item", "*p1.Item", "[]p1.Item"}, v \in {"", "required"} }
     \cup { Prm("ctx", "context.Context", "Context", "", "") }
@@ -203,6 +203,12 @@ MethodsC14 ==    { [MthP("POST", <<Prm("e", "p1.Hostile", "Body", "", "")>>, ret
             \cup { [MthP("GET", <<Prm("b", "p1.Hostile", "Query", "", "")>>, <<"error">>, <<>>, 0) EXCEPT !.verb = v] : v \in {"GET", "TRACE", ""} }
 TypeSetsC14 == HostileTypeSets \cup UnsupportedTypeSets
 \* every unsupported / unusual type shape, as a body and as a result, in both dialects (exhaustive: few and each one matters)
+\* instantiated generics as parameter / result types themselves (type arguments that are slices, declared types, several arguments)
+TGenerics == RawT("Gen", "type Gen[T any] struct {\n\tX T `json:\"x\"`\n}\n\ntype Pair[K comparable, V any] struct {\n\tKey K `json:\"key\"`\n\tVal V `json:\"val\"`\n}")
+GenericTypeSets == { <<TItem, TMyErr, TColor, TGenerics>> }
+GenericUses == {"p1.Gen[string]", "p1.Gen[[]string]", "[]p1.Gen[[]int]", "*p1.Pair[string, []float64]", "p1.Gen[p1.Item]", "p1.Pair[string, p1.Item]", "p1.Gen[[]p1.Item]"}
+MethodsC14generics == { MthP("POST", <<Prm("e", t, "Body", "", "")>>, <<"error">>, <<>>, 0) : t \in GenericUses }
+                      \cup { MthP("GET", <<>>, <<t, "error">>, <<>>, 0) : t \in GenericUses }
 MethodsC14types == { MthP("POST", <<Prm("e", "p1.Hostile", "Body", "", "")>>, <<"error">>, <<>>, 0),
                      MthP("GET", <<>>, <<"[]p1.Hostile", "error">>, <<>>, 0) }
 
@@ -252,6 +258,9 @@ BaseJr == [BaseJ EXCEPT !.anns = Rev(BaseJ.anns), !.desc = "base, annotations re
 BaseFr == [BaseF EXCEPT !.anns = Rev(BaseF.anns), !.desc = "base, annotations reversed"]
 \* two path parameters (several diagnostics of one kind on one route)
 BaseP == [BaseJ EXCEPT !.route = "/r/{a}/{b}", !.sig = <<Sg("a", "string"), Sg("b", "int")>>, !.anns = <<An("Path", "a", ""), An("Path", "b", "")>>, !.ret = <<"error">>]
+\* a signature laid out over several lines, with a two-name declaration spanning two of them (ranges of parameter diagnostics)
+BaseM == [BaseJ EXCEPT !.sig = <<Sg("a", "string"), Sg("c", "string"), Sg("b", "*int"), Sg("e", "p1.Item")>>, !.desc = "base, multi-line signature"]
+         @@ [groups |-> <<2, 1, 1>>, multiline |-> TRUE]
 BadAlias(a, n) == [kind |-> a.kind, value |-> a.value, alias |-> "", validate |-> "", desc |-> "", extra |-> "", rawProps |-> "{name: " \o ToString(n) \o "}"]
 Rm(sq, i) == [j \in 1..(Len(sq) - 1) |-> IF j < i THEN sq[j] ELSE sq[j + 1]]
 Tag(b, t) == IF b.ptag = "" THEN t ELSE b.ptag \o "+" \o t
@@ -266,7 +275,7 @@ Perturb1(b) ==
   \cup { [b EXCEPT !.sig = Rm(b.sig, i), !.ptag = Tag(b, "dropParam:" \o b.sig[i].name)] : i \in DOMAIN b.sig }
   \cup { [b EXCEPT !.sig[i].name = "yy", !.ptag = Tag(b, "renameParam:" \o b.sig[i].name)] : i \in DOMAIN b.sig }
   \cup { [b EXCEPT !.sig[pr[1]].type = pr[2], !.ptag = Tag(b, "retypeParam:" \o b.sig[pr[1]].name \o ">" \o pr[2])]
-            : pr \in {x \in (DOMAIN b.sig) \X {"p1.Item", "[]string", "map[string]string", "p1.Color", "string"} :
+            : pr \in {x \in (DOMAIN b.sig) \X {"p1.Item", "[]string", "map[string]string", "p1.Color", "string", "[]p1.Color"} :
                           b.sig[x[1]].type # "context.Context" /\ b.sig[x[1]].type # x[2]} }
   \cup { [b EXCEPT !.route = r, !.ptag = Tag(b, "route:" \o r)] : r \in {"/r", "/r/{a}/{a}", "/r/{zz}", "/r/{a}/{id}", "/r/{id}"} \ {b.route} }
   \cup { [b EXCEPT !.ret = r, !.ptag = Tag(b, "ret")] : r \in {<<>>, <<"p1.Item">>, <<"string", "string", "error">>, <<"p1.Item", "string">>, <<"p1.MyErr">>, <<"string", "p1.MyErr">>} \ {b.ret} }
@@ -285,7 +294,8 @@ CtrlsC10 == { Ctl("p1", "f1", "AController", pre, "A", <<>>) : pre \in {"/a", "/
 MethodsC10single == {BaseJ, BaseF, BaseJr, BaseFr, BaseP} \cup Perturb1(BaseJ) \cup Perturb1(BaseF) \cup Perturb1(BaseJr) \cup Perturb1(BaseFr) \cup Perturb1(BaseP)
 \* the core of the single-perturbation space (three bases, one controller prefix): small enough to be run in full on every change
 CtrlsC10core == { Ctl("p1", "f1", "AController", "/a", "A", <<>>) }
-MethodsC10core == {BaseJ, BaseF, BaseP} \cup Perturb1(BaseJ) \cup Perturb1(BaseF) \cup Perturb1(BaseP)
+MethodsC10core == {BaseJ, BaseF, BaseP, BaseM} \cup Perturb1(BaseJ) \cup Perturb1(BaseF) \cup Perturb1(BaseP)
+                  \cup {x \in Perturb1(BaseM) : (Len(x.anns) # Len(BaseM.anns) \/ x.sig # BaseM.sig) /\ Len(x.sig) = 4 /\ x.sig[1].type = x.sig[2].type}
 \* the core of the masking space: a stray property on annotation i together with an error that involves the same annotation
 \* (duplicate, retarget), and a stray property on @Method together with every unsupported verb
 StrayAnn(b, i) == [b EXCEPT !.anns[i].extra = "example: \"abc\"", !.ptag = Tag(b, "strayProp:" \o b.anns[i].kind)]
